@@ -11,7 +11,10 @@ for name, (ck, ex, c, u, na, first) in sorted(res.items()):
     p = f"/verif/seeded/{name}/meta.json"
     if not os.path.exists(p): continue
     meta = json.load(open(p))
-    if na: s = "patch no longer applies to the current tree (later fix: commits changed the site); not re-run"; n["noapply"] += 1
+    ob = f"/verif/seeded/{name}/obsolete.txt"
+    if os.path.exists(ob):
+        s = "obsolete after a later fix: commit (no failing input exists any more): " + open(ob).read().strip()[:300] + (f" — the check still exits {ex} on the changed source" if not na else ""); n.setdefault("obsolete", 0); n["obsolete"] += 1
+    elif na: s = "patch no longer applies to the current tree (later fix: commits changed the site); not re-run"; n["noapply"] += 1
     elif ex == 0: s = "MISSED (exit 0)"; n["missed"] += 1
     elif c: s = f"caught: exit 1 with {c} concrete replay(s) ({first}) by ./check {ck}"; n["caught"] += 1
     else: s = "detected only as broken proof obligation / correspondence: exit 1, no-failing-input-found"; n["unproved"] += 1
